@@ -41,6 +41,13 @@ FUNCS = [
     ('function($f as function(xs:integer) as xs:int) as xs:integer { 1 }', ('function', [P('function(xs:integer) as xs:int')], P('xs:integer'))),
     ('function() as function(xs:integer) as xs:int { function($x as xs:integer) as xs:int { xs:int($x) } }', ('function', [], P('function(xs:integer) as xs:int'))),
     ('function() as function(xs:integer) as xs:integer { function($x as xs:integer) as xs:integer { $x } }', ('function', [], P('function(xs:integer) as xs:integer'))),
+    # references to built-in functions at an arity BELOW their maximum, and partial applications: the signature is the one of that arity
+    ('substring#2', ('function', [P('xs:string?'), P('xs:double')], P('xs:string'))),
+    ('substring#3', ('function', [P('xs:string?'), P('xs:double'), P('xs:double')], P('xs:string'))),
+    ('string-join#1', ('function', [P('xs:anyAtomicType*')], P('xs:string'))),
+    ('name#0', ('function', [], P('xs:string'))),
+    ('substring(?, 2)', ('function', [P('xs:string?')], P('xs:string'))),
+    ('substring(?, ?, 1)', ('function', [P('xs:string?'), P('xs:double')], P('xs:string'))),
 ]
 A = lambda t: ('atomic', t)     # noqa
 MAPS = [
@@ -68,6 +75,8 @@ FUNC_TESTS = ['function(*)', 'function(xs:integer) as xs:string', 'function(xs:i
               'function(xs:numeric?) as xs:numeric?', 'function(function(xs:integer) as xs:int) as xs:integer', 'function(function(xs:integer) as xs:integer) as xs:integer',
               'function(function(xs:int) as xs:int) as xs:integer', 'function() as function(xs:integer) as xs:int', 'function() as function(xs:integer) as xs:integer',
               'function() as function(xs:int) as xs:decimal', 'function(xs:double) as xs:anyAtomicType?', 'function(xs:string?) as xs:integer', 'function(xs:int, node()*) as element()?',
+              'function(xs:string?, xs:double) as xs:string', 'function(xs:string?, xs:double, xs:double) as xs:string', 'function(xs:string*) as xs:string', 'function() as xs:string',
+              'function(xs:string?) as xs:string', 'function(xs:string) as xs:string?', 'function(xs:string?, xs:double) as xs:string?', 'function(xs:string?, xs:integer) as xs:string',
               'map(*)', 'map(xs:string, xs:integer)', 'map(xs:integer, item()*)', 'map(xs:anyAtomicType, xs:string+)', 'map(xs:date, empty-sequence())',
               'array(*)', 'array(xs:integer)', 'array(xs:integer?)', 'array(item()*)', 'array(xs:string?)', 'array(array(xs:integer))', 'array(xs:integer+)']
 SPACED = ['element( a )', 'element ( * )', 'xs:integer ?', 'xs:integer +', 'item ( ) *', 'attribute( id )', 'map( xs:string , xs:integer )', 'array( xs:integer ) ?', 'function( * )',
